@@ -306,7 +306,7 @@ def exec_for(E, s):
         for name in sorted(preserved):
             if name in entry_vals and not _same_binding(entry_vals[name], env.get(name)):
                 raise Unsupported('loop local %s is declared preserved but a continuing path rebinds it' % name)
-        for name in sorted(names - target_names - preserved):
+        for name in sorted(names - target_names - preserved - set(regrown)):
             v0, v1 = entry_vals.get(name), env.get(name)
             if isinstance(v0, Arr) and name not in roots and v0.ndim == 1 and getattr(v0, 'lead', None) is None:
                 if not (isinstance(v1, Arr) and v1.ident == v0.ident and v1.stride == v0.stride == 1):
@@ -316,8 +316,18 @@ def exec_for(E, s):
                                                   t(v1.off) + t(v1.n) <= t(v0.off) + t(v0.n)), s,
                          name='%s/loop%d/rebound-window:%s' % (E.fn_short, ordinal, name))
 
+    regrown = dict(spec.get('regrown') or {})
+
     def havoc():
+        for name, ty in regrown.items():
+            # an array local that every iteration REBINDS to a new, longer array (x = np.append(x, ...)): at the loop head it
+            # is some array of unknown length and contents, constrained by the invariant alone
+            n_ = z3.Int(fresh_name(name + '.len'))
+            E.assume(n_ >= 0)
+            env[name] = E.new_arr(n_, ty, base=name + '@loop')
         for name in sorted(names - target_names):
+            if name in regrown:
+                continue
             if name in preserved:
                 continue          # assigned only on paths that leave the loop: checked after every body path
             if name in env and name not in roots:
